@@ -579,7 +579,20 @@ def unit_mode(repo, seed, outfile, spec, case):
         T, N, _ = X["pos"].shape
         return {"neighbour-sets": ("sets", read_rows(fn, T, N))}
 
-    FUNCS = {"cutoffneighbors": (lambda X: f_writer(X, "cutoffneighbors"), None, True), "Nnearests": (lambda X: f_writer(X, "Nnearests"), None, True),
+    def f_sq(X, meth):
+        from PyMatterSim.static.sq import sq
+        pref = os.path.join(tmp, f"sq{counter[0]}.csv")
+        counter[0] += 1
+        o = sq(snaps(X), qrange=3.0, onlypositive=False, saveqvectors=True, outputfile=pref)
+        res = getattr(o, meth)()
+        tab = pd.read_csv(pref[:-4] + "_qvectors.csv")
+        out = {"per-vector:" + c: ("global", tab[c].values) for c in tab.columns}
+        out.update({"returned:" + c: ("global", res[c].values) for c in res.columns})
+        return out
+
+    FUNCS = {"sq.unary": (lambda X: f_sq(X, "unary"), None, True), "sq.binary": (lambda X: f_sq(X, "binary"), None, True),
+             "sq.ternary": (lambda X: f_sq(X, "ternary"), None, True),
+             "cutoffneighbors": (lambda X: f_writer(X, "cutoffneighbors"), None, True), "Nnearests": (lambda X: f_writer(X, "Nnearests"), None, True),
              "boo_2d.lthorder": (f_boo2d, 2, True), "boo_3d.qlm_Qlm": (f_boo3d, 3, True), "q8_tetrahedral": (f_tetra, 3, True),
              "S2.particle_s2": (f_s2, None, True), "gyration_tensor": (f_gyration, None, False), "divergence_curl": (f_divcurl, None, False),
              "conditional_gr": (f_condgr, None, False), "Dynamics.relaxation": (f_relax, None, False),
@@ -656,7 +669,7 @@ def unit_mode(repo, seed, outfile, spec, case):
             if a.shape != b.shape:
                 return f"{name}: shapes {a.shape} vs {b.shape}"
             scale = max(1.0, float(np.nanmax(np.abs(a)))) if kind in ("hessian", "spectrum") else 1.0
-            ok = np.isclose(b, a, rtol=1e-7, atol=1e-9 * scale, equal_nan=True)
+            ok = np.isclose(b, a, rtol=1e-7, atol=(2.1e-6 if name.startswith(("per-vector:", "returned:")) else 1e-9 * scale), equal_nan=True)
             if not ok.all():
                 k = tuple(int(x) for x in np.argwhere(~ok)[0])
                 return f"{name}{list(k)}: {b[k]!r} after the transformation, {a[k]!r} before (max |diff| {np.nanmax(np.abs(b - a)):.3g})"
@@ -672,9 +685,10 @@ def unit_mode(repo, seed, outfile, spec, case):
             for d in dims:
                 N = int(rng.integers(9, 15)) if fname != "HessianMatrix.diagonalize_hessian" else int(rng.integers(6, 10))
                 T = 1 if fname in ("gyration_tensor", "divergence_curl", "conditional_gr", "HessianMatrix.diagonalize_hessian") else int(rng.integers(2, 4))
-                tilt = group in ("translation", "lattice-shift", "relabelling") and trial % 2 == 1
+                tilt = group in ("translation", "lattice-shift", "relabelling") and trial % 2 == 1 and not fname.startswith("sq.")
+                ntypes = {"sq.unary": 1, "sq.ternary": 3}.get(fname, 2)
                 for attempt in range(8):
-                    X = make(d, N, T, tilt=tilt, periodic=(None if trial % 3 else ([1] + [0] * (d - 1))), spread=0.12)
+                    X = make(d, N, T, tilt=tilt, ntypes=ntypes, periodic=(None if (trial % 3 or fname.startswith("sq.")) else ([1] + [0] * (d - 1))), spread=0.12)
                     if fname == "gyration_tensor" and group == "lattice-shift":
                         break
                     X2, how = g(X, per_frame)
